@@ -815,7 +815,7 @@ def search(ck, seeds=None):
 
 COQ_EXTRA = '''From Model Require Import PyHash Graph Morgan MorganFast Stereo Writer ChiralMorgan.
 From Model Require Import StereoRegistry.
-From Proofs Require Import WriterInvProofs WriterStereoExt StereoProofs RegistryRemapExt StereoOrderExt EnvLaws CtMapOrderExt SameStereo ChiralOrderExt ChiralReinsertExt ChiralReinsertBool.
+From Proofs Require Import WriterInvProofs WriterStereoExt StereoProofs RegistryRemapExt StereoOrderExt EnvLaws CtMapOrderExt SameStereo ChiralOrderExt ChiralReinsertExt ChiralReinsertBool ChiralStates.
 Import ListNotations.
 Open Scope Z_scope.
 Definition iadj_eqb (a b : iadj) : bool := list_eqb (pair_eqb Z.eqb (list_eqb (pair_eqb Z.eqb Z.eqb))) a b.
@@ -903,6 +903,24 @@ Definition two_is (rings : list Z) (g g1 : mol) (tabs tabs1 : cmtabs) (flips : l
   match two_hyp rings g g1 tabs tabs1 flips ord ord1 with
   | Some (_, _, u) => Bool.eqb u expected
   | None => true
+  end.
+(* intermediate states: what every call of __differentiation returns (labels in insertion order, the three stereo sets in iteration
+   order, the groups for the flip-half heuristic) == the states of the model's outer loop, call by call *)
+Definition dstate := (labels * list Z * list (Z * Z) * list Z * (list (list Z) * list (list (Z * (Z * Z))) * list (list Z)))%type.
+Definition dstate_eqb (d : dres) (x : dstate) : bool :=
+  let '(m, sa, sct, sal, (ga, gct, gal)) := x in
+  labels_eqb (d_morgan d) m && list_eqb Z.eqb (d_atoms d) sa && list_eqb zz_eqb2 (d_ct d) sct && list_eqb Z.eqb (d_al d) sal &&
+  list_eqb (list_eqb Z.eqb) (d_ga d) ga && list_eqb (list_eqb (pair_eqb Z.eqb zz_eqb2)) (d_gct d) gct && list_eqb (list_eqb Z.eqb) (d_gal d) gal.
+Fixpoint states_eqb (a : list (pyres dres)) (b : list dstate) : bool :=
+  match a, b with
+  | [], [] => true
+  | Ok d :: r, x :: s => dstate_eqb d x && states_eqb r s
+  | _, _ => false
+  end.
+Definition cms_ok (rings : list Z) (g : mol) (tabs : cmtabs) (ord : cmorders) (states : list dstate) : bool :=
+  match fast_atoms_order rings g with
+  | Err _ => true
+  | Ok ao => states_eqb (chiral_states hash63 g tabs ao ord) states
   end.
 (* hypothesis of C01_smiles_invariant_discrete_remap: the stereo registries of the remap()-ed molecule are the renamed registries,
    and the remap()-ed molecule is ren_mol (same insertion orders) *)
@@ -1067,12 +1085,15 @@ class ChiralSpy:
         st._morgan = spy
         # the groups __differentiation hands to the flip-half heuristic, call by call
         self.flips = []
+        self.states = []
         self.orig_d = st.MoleculeStereo._MoleculeStereo__differentiation
         orig_d = self.orig_d
 
         def diff(mol, *a):
             r = orig_d(mol, *a)
             self.flips.append(bool(r[4] or r[5] or r[6]))
+            # snapshot (the sets are mutated in place by later calls)
+            self.states.append((dict(r[0]), list(r[1]), list(r[2]), list(r[3]), [list(x) for x in r[4]], [list(x) for x in r[5]], [list(x) for x in r[6]]))
             return r
         st.MoleculeStereo._MoleculeStereo__differentiation = diff
         return self
@@ -1142,6 +1163,7 @@ def chiral_case(spy, m, rng=None):
     m.__dict__.pop('_chiral_morgan', None)
     spy.trace = []
     spy.flips = []
+    spy.states = []
     try:
         w = m._chiral_morgan
         exp = f'(Ok {zmap(w)})'
@@ -1150,6 +1172,14 @@ def chiral_case(spy, m, rng=None):
     trace = lst([zmap(t) for t in spy.trace])
     # C01_chiral_morgan_order_independent: the same sets in a shuffled iteration order
     spy.last_order_cases = None
+    spy.last_states_case = None
+    if w is not None:
+        def st_term(s):
+            mm, sa, sct, sal, ga, gct, gal = s
+            groups = tup(lst(ga, lambda x: lst(x, zraw)), lst(gct, lambda grp: lst(grp, lambda x: tup(zraw(x[0]), pair_term(x[1])))),
+                         lst(gal, lambda x: lst(x, zraw)))
+            return tup(zmap(mm), lst(sa, zraw), lst(sct, pair_term), lst(sal, zraw), groups)
+        spy.last_states_case = (f'cms_ok {lst(ring, zraw)} {mol_term(m)} {cmtabs_term(m)} {ord_term} {lst(spy.states, st_term)}', len(spy.states))
     if w is not None and rng is not None:
         sh = [list(atoms_stereo), list(cis_trans_stereo), list(allenes_stereo)]
         for x in sh:
@@ -1433,19 +1463,30 @@ def correspondence(ck):
                 meta.append(('same-stereo', smi, str(new)))
                 ck.case(('corr-same-stereo', smi, tuple(new._atoms)), nontrivial=True)
                 ck.count('corr:same-stereo-hypotheses')
-                td = two_descriptions_case(cspy, kk, new, fmap) if (not quick or ck.distribution.get('corr:two-descriptions', 0) < 90) else None
-                if td is not None:
+                tds = [(two_descriptions_case(cspy, kk, new, fmap), new, fmap)] if (not quick or ck.distribution.get('corr:two-descriptions', 0) < 90) else []
+                if not quick and smi in STEREO_TIES:
+                    # thorough: more insertion orders / registry listings of the molecules whose stereo refinement has to work
+                    for _ in range(4):
+                        try:
+                            new2, fmap2, complete2 = rebuild(kk, rng)
+                        except Exception:
+                            continue
+                        if complete2 and n_stereo(new2) == n_stereo(kk):
+                            tds.append((two_descriptions_case(cspy, kk, new2, fmap2), new2, fmap2))
+                for td, newx, fmapx in tds:
+                    if td is None:
+                        continue
                     c2, cu2, flip_free, same, flipped = td
                     cases.append(c2)
-                    meta.append(('two-descriptions', smi, str(new)))
-                    ck.case(('corr-two-descriptions', smi, tuple(new._atoms)), nontrivial=True)
+                    meta.append(('two-descriptions', smi, str(newx)))
+                    ck.case(('corr-two-descriptions', smi, tuple(newx._atoms)), nontrivial=True)
                     ck.count('corr:two-descriptions' + (':pair-listed-reversed' if flipped else ''))
                     ucases.append(cu2)
                     umeta.append((smi, 'two-descriptions', flip_free, 1 if same else 0))
-                    if flip_free and not same and not (gap_classes(kk) | gap_classes(new)):
+                    if flip_free and not same and not (gap_classes(kk) | gap_classes(newx)):
                         ck.counterexample(f'chiral-morgan-differs:rebuild:{smi}', '_chiral_morgan gives different weights (as a function of the atom) '
                                           'to two descriptions of one structure although no flip-half group was needed',
-                                          {'smiles': smi, 'rebuilt': str(new), 'mapping': fmap}, {'kk': dict(kk._chiral_morgan), 'rebuilt': dict(new._chiral_morgan)},
+                                          {'smiles': smi, 'rebuilt': str(newx), 'mapping': fmapx}, {'kk': dict(kk._chiral_morgan), 'rebuilt': dict(newx._chiral_morgan)},
                                           'equal weights atom by atom', 'C01_chiral_morgan_two_descriptions (hypotheses evaluated in Coq)')
             if complete:
                 inv = {v: k for k, v in fmap.items()}
@@ -1473,6 +1514,11 @@ def correspondence(ck):
                     continue
                 cases.append(c)
                 meta.append(('chiral', how, smi, len(cspy.trace)))
+                if cspy.last_states_case:
+                    cases.append(cspy.last_states_case[0])
+                    meta.append(('chiral-states', how, smi, cspy.last_states_case[1]))
+                    ck.case(('corr-chiral-states', smi, how, tuple(v._atoms)), nontrivial=cspy.last_states_case[1] > 0)
+                    ck.count(f'corr:chiral-states:differentiation-calls={min(cspy.last_states_case[1], 3)}')
                 if cspy.last_order_cases:
                     co, cu, flip_free, several, ncalls = cspy.last_order_cases
                     cases.append(co)
@@ -1566,7 +1612,7 @@ def run(ck):
     t0 = time.time()
     # gen/SmilesTables.v (C02's translator, which also guards the READER's atom regex) is used as C02's check regenerates it: no C01
     # theorem depends on the content of a table, and the writer tables are tied here by the whole-string writer correspondence
-    proved = common.standard_proof_steps(ck, translators=['elements', 'stereo'], extra_targets=['model/MorganFast.vo', 'model/ChiralMorgan.vo'])
+    proved = common.standard_proof_steps(ck, translators=['elements', 'stereo', 'morganconsts'], extra_targets=['model/MorganFast.vo', 'model/ChiralMorgan.vo'])
     t1 = time.time()
     tied, bad, log, suspects = correspondence(ck)
     t2 = time.time()
